@@ -6,5 +6,7 @@ CONSTANTS
   Depth = 0
   CatCut = 1
   WordCut = 1
+  AfixCut = 1
+  SpellOf <- NoSpelling
 POSTCONDITION Consumed
 CHECK_DEADLOCK FALSE
